@@ -506,6 +506,10 @@ fn registry() -> Registry {
         WB<DP<X8, SH>>, PR<MH<X8>, SH>, PR<WB<X8>, WT<XB>>, PR<PR<X8, XB>, SH>, PR<VU<X8>, MH<XB>>,
         VU<MH<X8>>, VU<WB<SH>>, VU<WT<X8>>, VU<PR<X8, SH>>, VU<VU<X8>>,
         DP<X8, MH<SH>>, DP<DP<X8, N8>, SH>, DP<X8, WB<SH>>, DP<X8, VU<X8>>);
+    // #[derive(Lattice)] structs with three fields
+    reg!(r.add_d(true): Tri<X8, SH, XB>, Tri<WT<X8>, MH<SH>, NB>, Tri<SH, SB, VU<X8>>, Tri<(), X8, WB<SH>>,
+        MH<Tri<X8, SH, XB>>, WB<Tri<X8, XB, NB>>);
+    reg!(r.add(true): Tri<CF, X8, SH>);
     // DomPair over a partially ordered key: documented not to be a lattice; correspondence only
     reg!(r.add_d(false): DP<PR<X8, XB>, SH>, DP<SH, X8>);
     // no Default
@@ -516,6 +520,7 @@ fn registry() -> Registry {
     reg2!(r.cross: (MH<SH>, MB<SB>), (MH<SH>, MV<SV>), (MH<SH>, MA<SS>), (MH<SH>, MO<SO>), (MH<SH>, MS<SS>),
         (MB<SB>, MH<SH>), (MB<X8>, MV<X8>), (MH<X8>, MV<X8>), (MH<X8>, MA<X8>), (MH<X8>, MS<X8>), (MH<X8>, MO<X8>),
         (MH<WB<SH>>, MS<WB<SS>>), (MH<MH<SH>>, MS<MS<SS>>), (MH<CF>, MV<CF>));
+    reg2!(r.cross: (Tri<X8, SH, MH<SH>>, Tri<X8, SV, MS<SS>>));
     reg2!(r.cross: (WB<SH>, WB<SS>), (WB<SH>, WB<SV>), (WT<SH>, WT<SS>), (WT<SB>, WT<SA>),
         (PR<SH, SB>, PR<SS, SV>), (VU<SH>, VU<SS>), (DP<X8, SH>, DP<X8, SS>), (WB<MH<SH>>, WB<MS<SS>>));
     // compare-only pairs
